@@ -28,6 +28,11 @@ impl Property for StoreProp {
     fn max_shrink_iters(&self) -> u32 {
         600
     }
+    fn record_current(&self) -> bool {
+        // a cursor over freed memory can take the whole process down; keep the case on disk so the
+        // parent can still produce a replay file
+        self.probes.cursors
+    }
     fn strategy(&self, ctx: &Ctx) -> BoxedStrategy<History> {
         let (_, warm, ops) = ctx.tier.pick(self.quick, self.thorough);
         driver::history_strategy(self.profile, self.weights, self.tree_surface_weight, 0..warm + 1, 1..ops + 1)
@@ -84,5 +89,130 @@ pub fn c03() -> Check {
         quick: (150, 200, 120),
         thorough: (800, 400, 300),
         nontrivial: |s| s.flushes + s.ingests >= 1 && s.merges + s.gcs >= 1 && s.scan_reversals >= 1,
+    })
+}
+
+pub fn c05() -> Check {
+    let mut w = OpWeights::base();
+    w.compact = 40;
+    w.del = 18;
+    w.reopen = 1;
+    Check::new(
+        "C05",
+        "exploration",
+        "store level: C01 histories (more deletes and compaction steps, gc policies from the policy grammar) with a full multi-version dump of every live sst before and after every compaction step; a step that is not a GC must leave the multiset of (key, timestamp, value-or-tombstone) unchanged; a GC step may only drop entries, never duplicate or invent one, never an entry the configured policy requires to retain (independent reading of the documented policy language evaluated over the key's whole reachable history), and never the value that decides the current value of a key. unit level: generated per-key version patterns x generated policies x now_micros fed to GarbageCollectionPolicy::collector and compared with the independent reading. Non-trivial (store): >= 1 merge and >= 1 GC that dropped entries; (unit): >= 2 keys with >= 3 versions and >= 1 tombstone run; distinct by structural hash.",
+    )
+    .assume("retaining more than the policy requires is allowed (module documentation of sst::gc); only dropping a required entry is a violation")
+    .assume("which compaction steps are garbage collections is reported by a guard-only hook (the step whose upper level is the last level)")
+    .assume("as C01: single-threaded step driving, distinct keys per batch, R-D / R-R exclusions")
+    .pbt(StoreProp {
+        name: "conservation",
+        probes: Probes { conserve: true, ..Default::default() },
+        profile: Profile::Shape,
+        weights: w,
+        tree_surface_weight: 25,
+        quick: (120, 200, 120),
+        thorough: (2500, 400, 300),
+        nontrivial: |s| s.merges >= 1 && s.gcs >= 1 && s.gc_dropped_entries >= 1,
+    })
+    .pbt(crate::gcunit::GcUnit)
+}
+
+pub fn c04() -> Check {
+    let mut w = OpWeights::base();
+    w.verify = 8;
+    w.compact = 34;
+    w.del = 14;
+    Check::new(
+        "C04",
+        "exploration",
+        "accept half: C01 histories (manifest rollover ratios 1, 2, 8 so fragments appear; more verifier passes) and after every operation an independent re-implementation parses every manifest fragment and checks: each transaction has input == previous output and input == output + discard, discard == sum(removed) - sum(added), each fragment starts with the roll-up of its predecessor, the final output equals the sum of the listed digests, and each listed sst's file name, stored setsum and setsum recomputed from a full walk agree; every verifier pass must return Ok or back off. reject half: on a finished store one self-consistent tamper is applied (one entry of one compaction output dropped / duplicated at a new timestamp / modified and the file renamed to its new setsum with the manifest line patched, or one hex digit of one recorded digest changed, CRCs fixed up) and some verifier (ManifestVerifier or LsmVerifier) that processes the fragment must report corruption. Non-trivial: >= 1 merge, >= 1 GC with non-zero discard, >= 1 rolled fragment; distinct by structural hash.",
+    )
+    .assume("raw byte damage (CRC failures) belongs to C09; tampers here are the self-consistent output of a hypothetical buggy compaction")
+    .assume("as C01: single-threaded step driving, R-D / R-R exclusions")
+    .pbt(StoreProp {
+        name: "balance-accept",
+        probes: Probes { balance: true, ..Default::default() },
+        profile: Profile::Shape,
+        weights: w,
+        tree_surface_weight: 20,
+        quick: (120, 200, 100),
+        thorough: (2500, 400, 250),
+        nontrivial: |s| s.merges >= 1 && s.gcs >= 1 && s.rolled_fragments >= 1,
+    })
+}
+
+pub fn c08() -> Check {
+    let mut w = OpWeights::base();
+    w.verify = 12;
+    w.reopen = 6;
+    w.compact = 34;
+    w.cursor = 4;
+    Check::new(
+        "C08",
+        "exploration",
+        "C01 histories with many verifier passes and reopens (orphan clean-up) and scan cursors held across compactions; after every operation every sst named by the live tree and by the manifest on disk (independent parse) must exist in sst/; a verifier pass must not change sst/ and must never remove the live MANIFEST; after every operation the full read-back still equals the model (so a wrongly removed file shows up as an error or a wrong read). Non-trivial: >= 1 verifier pass that unlinked files and >= 1 reopen after a compaction; distinct by structural hash.",
+    )
+    .assume("crash points inside verifier passes and trash moves are explored by the C02 fault enumerator, not here")
+    .assume("as C01: single-threaded step driving, R-D / R-R exclusions")
+    .pbt(StoreProp {
+        name: "files",
+        probes: Probes { files: true, reads: true, cursors: true, ..Default::default() },
+        profile: Profile::Shape,
+        weights: w,
+        tree_surface_weight: 20,
+        quick: (120, 200, 100),
+        thorough: (2500, 400, 250),
+        nontrivial: |s| s.verify_unlinked >= 1 && s.reopens >= 1 && s.merges + s.gcs >= 1,
+    })
+}
+
+pub fn c07() -> Check {
+    let mut w = OpWeights::base();
+    w.cursor = 14;
+    w.flush = 18;
+    w.verify = 5;
+    Check::new(
+        "C07",
+        "exploration",
+        "deterministic half: C01 histories in which up to three scan cursors are opened at generated points, advanced with generated programs, kept while writes, memtable rollovers and flushes, compactions, GCs and verifier unlinks go on, and finally walked to the end; every value a cursor returns must equal a reference cursor over the model snapshot taken when the scan was opened, no call may fail, and (skipfree allocation registry hook) no dereferenced skiplist node may have been freed. Generated configurations include sst cache sizes 0 and 8 KiB so retired files are not masked by cached descriptors. Non-trivial: a cursor was used after >= 1 flush or >= 1 compaction that happened since it was opened; distinct by structural hash.",
+    )
+    .assume("cursors are closed before a reopen (a cursor belongs to one open store)")
+    .assume("the threaded half (readers holding cursors while writer, flush and compaction threads run) is part of C06's engine")
+    .pbt(StoreProp {
+        name: "held-cursors",
+        probes: Probes { cursors: true, ..Default::default() },
+        profile: Profile::Shape,
+        weights: w,
+        tree_surface_weight: 15,
+        quick: (120, 150, 120),
+        thorough: (2500, 300, 300),
+        nontrivial: |s| s.cursor_held_across_flush + s.cursor_held_across_compaction >= 1,
+    })
+}
+
+pub fn c20() -> Check {
+    let mut w = OpWeights::base();
+    w.flush = 30;
+    w.put = 36;
+    w.compact = 8;
+    w.reopen = 1;
+    w.verify = 1;
+    Check::new(
+        "C20",
+        "exploration",
+        "safety form of the liveness property over generated states (deterministic half): configurations with small write-stall / mandatory-compaction thresholds (1..8 files, 4 KiB..64 MiB) and tight compaction limits (max files 2..64, max bytes 8 KiB..512 MiB); histories that flush/ingest often and compact rarely so level 0 reaches the stall threshold; whenever the store reports that ingest must stall, a bounded number of compaction steps (<= live files + 16) must lower level 0 below the threshold, and a compaction step that finds nothing to run while the stall holds and nothing is in progress is a violation. Non-trivial: level 0 reached the stall threshold at least once and was relieved; distinct by structural hash.",
+    )
+    .assume("'eventually' is replaced by bounded-step relief under single-threaded step driving; thread-level wake-ups are covered by the threaded engine")
+    .assume("known finding R-P: states in which all of level 0 plus the overlapping level-1 files already exceed max_compaction_files are excluded and counted")
+    .pbt(StoreProp {
+        name: "stall-relief",
+        probes: Probes { stall: true, reads: false, ..Default::default() },
+        profile: Profile::Stall,
+        weights: w,
+        tree_surface_weight: 30,
+        quick: (150, 100, 150),
+        thorough: (3000, 200, 400),
+        nontrivial: |s| s.stalls_relieved >= 1,
     })
 }
